@@ -10,15 +10,16 @@ func read(rd io.Reader) (byte, error) {
 
 	i, err := rd.Read(b)
 
+	// a reader may return the last byte together with io.EOF
+	if i == 1 {
+		return b[0], nil
+	}
+
 	if err != nil {
 		return 0, err
 	}
 
-	if i != 1 {
-		return 0, err
-	}
-
-	return b[0], nil
+	return 0, io.ErrNoProgress
 }
 
 func convert(b []byte) (out []byte, err error) {
